@@ -16,6 +16,8 @@ var fmtLines = []string{
 	"\f##!> assemble", "\u00a0##!+ i", "\v##!>define  n  v", " \ffoo",
 	// an end marker closes its block whatever follows it on the line
 	"##!< end of block", "  ##!<1",
+	// runs of three and more blanks / TABs between the arguments of a directive
+	"##!> include-except   inc    ex \t\t ex", "##!>  include    inc   --   a    b",
 }
 
 // troublemakers of C10: comments that look like directives, odd arguments, glued keywords, upper-case / unsupported flags
